@@ -115,6 +115,24 @@ fn apply(st: &mut State, step: &Step, counts: &mut Vec<&'static str>) -> Result<
             reg_check(st, "after releasing the decoded value")?;
             Ok(format!("RoundPay fail={} code={} rc={}", fail, code, rc))
         }
+        "RoundZst" => {
+            // a zero-sized success payload with a destructor (a permit / guard type): moved into
+            // the slot once, destroyed once — when the decoded value is released
+            let res: Result<ZTok, UserErr> = if fail { Err(UserErr(code)) } else { Z_LIVE.fetch_add(1, std::sync::atomic::Ordering::SeqCst); Ok(ZTok) };
+            let mut slot = fresh_slot::<ZTok>();
+            let rc = track(|| if step.arg(2) & 1 == 1 { res.into_int_out_result(&mut slot) } else { into_int_out_result(res, &mut slot) });
+            vcheck!((rc == 0) == !fail, "intres.err_encoded_as_zero", "zst", "Result<zero-sized, UserErr> fail={} encoded as {}", fail, rc);
+            let live = Z_LIVE.load(std::sync::atomic::Ordering::SeqCst);
+            vcheck!(live == (!fail) as i32, "intres.payload_drop", "zst", "after encoding {} zero-sized payload(s) are alive, expected {}", live, (!fail) as i32);
+            let back: Result<ZTok, UserErr> = unsafe { track(|| from_int_result(rc, slot)) };
+            vcheck!(back.is_ok() == !fail, "intres.decoded_ok_from_error", "zst", "code {} decoded as ok={}", rc, back.is_ok());
+            let live = Z_LIVE.load(std::sync::atomic::Ordering::SeqCst);
+            vcheck!(live == (!fail) as i32, "intres.payload_drop", "zst", "after decoding {} zero-sized payload(s) are alive, expected {}", live, (!fail) as i32);
+            track(|| drop(back));
+            let live = Z_LIVE.load(std::sync::atomic::Ordering::SeqCst);
+            vcheck!(live == 0 && Z_NEG.load(std::sync::atomic::Ordering::SeqCst) == 0, "intres.payload_drop", "zst", "after releasing the decoded value {} zero-sized payload(s) are alive ({} destroyed without having existed)", live, Z_NEG.load(std::sync::atomic::Ordering::SeqCst));
+            Ok(format!("RoundZst fail={} code={} rc={}", fail, code, rc))
+        }
         "RoundIo" => {
             let non_os = step.arg(2) & 1 == 1;
             let res: Result<u64, std::io::Error> = if !fail {
@@ -167,7 +185,19 @@ fn apply(st: &mut State, step: &Step, counts: &mut Vec<&'static str>) -> Result<
     }
 }
 
-const OPS: [&str; 3] = ["RoundPay", "RoundIo", "Plain"];
+const OPS: [&str; 4] = ["RoundPay", "RoundIo", "Plain", "RoundZst"];
+
+/// Zero-sized payload with a counted destructor.
+pub struct ZTok;
+static Z_LIVE: std::sync::atomic::AtomicI32 = std::sync::atomic::AtomicI32::new(0);
+static Z_NEG: std::sync::atomic::AtomicU32 = std::sync::atomic::AtomicU32::new(0);
+impl Drop for ZTok {
+    fn drop(&mut self) {
+        if Z_LIVE.fetch_sub(1, std::sync::atomic::Ordering::SeqCst) <= 0 {
+            Z_NEG.fetch_add(1, std::sync::atomic::Ordering::SeqCst);
+        }
+    }
+}
 
 impl Engine for IntResEngine {
     fn name(&self) -> &'static str {
@@ -181,12 +211,14 @@ impl Engine for IntResEngine {
         let fail_rate = rng.range(0, 3) as u64;
         for _ in 0..n {
             let t = rng.below(threads as u64) as u8;
-            let op = OPS[rng.weighted(&[10, 10, 3])];
+            let op = OPS[rng.weighted(&[10, 10, 3, 5])];
             p.push(t, op, &[rng.range(0, 11), rng.chance(fail_rate, 3) as i64, rng.range(0, 1)]);
         }
         p
     }
     fn exec(&self, plan: &Plan, ctx: &mut RunCtx) -> VResult {
+        Z_LIVE.store(0, std::sync::atomic::Ordering::SeqCst);
+        Z_NEG.store(0, std::sync::atomic::Ordering::SeqCst);
         let mut st = State { reg: Reg::new(), next_id: 0, held: Vec::new() };
         for (i, step) in plan.steps.iter().enumerate() {
             ctx.cur_step = i as i64;
